@@ -33,7 +33,7 @@ static void ycb(const volatile void *addr, const char *func, int line){ (void)fu
 static uint64_t now_ns(void){ struct timespec ts; clock_gettime(CLOCK_MONOTONIC,&ts); return (uint64_t)ts.tv_sec*1000000000ull+(uint64_t)ts.tv_nsec; }
 static atomic_int viol; static char vmsg[300];
 static void fail(const char *m, long a, long b, long c){ if(!atomic_exchange(&viol,1)) snprintf(vmsg,sizeof vmsg,"%s %ld %ld %ld",m,a,b,c); }
-static int nops; static long init; static atomic_long okw, tmo, sigStarted, sigDone, forever_waiting;
+static int nops; static long init; static atomic_long okw, tmo, sigStarted, sigDone, forever_waiting; static atomic_int clients_done, clients_release;
 static void *client(void *a){ long role = (long)a;
   for (int i=0;i<nops && !viol;i++){
     if (role % 2 == 0) { atomic_fetch_add(&sigStarted,1); dispatch_semaphore_signal(S); atomic_fetch_add(&sigDone,1); if (rnd()%3==0) usleep(rnd()%60); }
@@ -42,6 +42,7 @@ static void *client(void *a){ long role = (long)a;
       uint64_t t0=now_ns(); long r=dispatch_semaphore_wait(S,t); uint64_t t1=now_ns();
       if (r==0){ long s=atomic_fetch_add(&okw,1)+1; long sg=atomic_load(&sigStarted); if(s>init+sg) fail("more successful waits than initial value + signals started: successes/signals",s,sg,init); }
       else { atomic_fetch_add(&tmo,1); if(t1-t0<to) fail("dispatch_semaphore_wait returned non-zero before its timeout elapsed: ns early",(long)(to-(t1-t0)),0,0); } } }
+  atomic_fetch_add(&clients_done,1); while(!atomic_load(&clients_release)) usleep(200);   // stay alive while the pinger may still signal this thread
   return NULL; }
 static void *fw(void *a){ (void)a; atomic_fetch_add(&forever_waiting,1); dispatch_semaphore_wait(S,DISPATCH_TIME_FOREVER); atomic_fetch_add(&okw,1); atomic_fetch_sub(&forever_waiting,1); return NULL; }
 // interruptions: a handler installed without SA_RESTART runs on the client threads while they sit in the kernel wait; an interrupted
@@ -57,8 +58,9 @@ int main(int argc, char **argv){
   struct sigaction sa; memset(&sa,0,sizeof sa); sa.sa_handler=on_usr1; sigaction(SIGUSR1,&sa,0);
   for (long i=0;i<nthr;i++) pthread_create(&cth[i],0,client,(void*)i);
   ncth=nthr; pthread_t pg; int ping = argc>5 ? atoi(argv[5]) : 1; if(ping) pthread_create(&pg,0,pinger,0);
+  while(atomic_load(&clients_done)<nthr) usleep(500);
+  atomic_store(&pinger_stop,1); if(ping) pthread_join(pg,0); ncth=0; atomic_store(&clients_release,1);
   for (int i=0;i<nthr;i++) pthread_join(cth[i],0);
-  atomic_store(&pinger_stop,1); if(ping) pthread_join(pg,0); ncth=0;
   // conservation: drain what is left by polling
   long expect = init + atomic_load(&sigDone) - atomic_load(&okw); long got=0;
   if(!viol){ if(expect<0) fail("more successes than permits at the end: expected remaining",expect,0,0);
